@@ -108,3 +108,22 @@ func (w *patternFlushWriter) Write(p []byte) (n int, err error) {
 
 	return
 }
+
+// flushAfterWriteWriter is an io.Writer that flushes after every write.
+type flushAfterWriteWriter struct {
+	w io.Writer
+	f flusher
+}
+
+func (w flushAfterWriteWriter) Write(p []byte) (n int, err error) {
+	n, err = w.w.Write(p)
+	if err != nil {
+		return
+	}
+
+	if n > 0 {
+		err = w.f.Flush()
+	}
+
+	return
+}
